@@ -101,6 +101,15 @@ def handleSelect (op : String) (args : List String) : Option String :=
       match (do let (_, iobjs) ← mkModule f T c; excludedSet f T c (parseIgnored ign) iobjs) with
       | .error e => selErr e
       | .ok xs => "ok\t" ++ encode ("\n".intercalate ((xs.mergeSort (fun a b => a ≤ b)).eraseDups))
+  | "boundary", [tree, cfg] =>
+    -- the decidable conditions of C09.wheel_from_sdist_eq_decidable for the wheel's package list
+    let T := parseTree tree
+    let c := parseCfg cfg
+    some <| match modulePackages .wheel T c with
+    | .error e => selErr e
+    | .ok pkgs =>
+      "ok\t" ++ boolStr (arcSafe pkgs c) ++ "\t" ++ boolStr (pkgInfoUnreached pkgs c) ++ "\t" ++
+        boolStr (!(c.packages.filter (fun p => p.formats.contains Fmt.wheel.name)).isEmpty)
   | _, _ => none
 
 end Poetry.Drv.SelectH
